@@ -216,7 +216,8 @@ def run_transcripts(ctx, bins, cases, tag):
             m = r.get("mut")
             if m is not None:
                 case["muts"] = [m]
-            sig = {"check": "transcript", "fmt": case.get("fmt"), "mut": (m or {}).get("k", "none"),
+            stage = "decode_corrupt" if m is not None else ("encode" if r.get("stream") != o.get("stream") or r.get("enc") != o.get("enc") or r.get("clen") != o.get("clen") else "decode_valid")
+            sig = {"check": "transcript", "fmt": case.get("fmt"), "mut": (m or {}).get("k", "none"), "stage": stage,
                    "fields": "+".join(fields), "pair": f"default-vs-{cfg}",
                    "opt_differs": cfg in ("noopt", "nostd"), "std_differs": cfg in ("nostd", "nostd_opt")}
             ctx.violation(f"transcripts differ between the default build and `{cfg}` for case {r['id']} "
@@ -274,7 +275,8 @@ def portable_model(buf, pos, rng, code, count):
             code = ((code << 8) | b) & 0xFFFFFFFF
             rng = (rng << 8) & 0xFFFFFFFF
         rng >>= 1
-        if code >= rng:
+        t = ((code - rng) & 0xFFFFFFFF) >> 31          # sign bit of code - range, as the code computes it
+        if t == 0:
             code -= rng
             res = (res << 1) | 1
         else:
@@ -284,8 +286,29 @@ def portable_model(buf, pos, rng, code, count):
     return {"result": res, "range": rng, "code": code, "pos": pos, "finished": pos == len(buf) and code == 0}
 
 
-def h4_direct_bits(ctx, tier, target_cfgs):
-    jobs = direct_bits_jobs(ctx.seed, 400 if tier == "quick" else 20000, tier)
+def class_jobs(classes, seed):
+    """Real-width states for the classes TLC reports for the clamping design: (position agrees, value agrees, bytes
+    left, run length, last byte zero, normalisation pending). Reduced width reads one 2-bit digit per 2 direct bits;
+    the real coder one byte per 8: run lengths are scaled so that the run reads beyond the end in the same way."""
+    rnd = random.Random(seed ^ 0xC1A55)
+    jobs = []
+    for ci, (same_pos, same_val, left, count, last_zero, pending) in enumerate(sorted(classes)):
+        for rep in range(6):
+            left_r = max(left, 0)
+            beyond = max(-left, 0)
+            blen = left_r + rnd.choice([1, 3, 8])
+            buf = [rnd.randrange(1, 256) for _ in range(blen)]
+            buf[-1] = 0 if last_zero else rnd.choice([1, 0x80, 0xFF, rnd.randrange(1, 256)])
+            pos = blen - left_r + beyond
+            rng = rnd.randrange(1 << 16, 1 << 24) if pending else rnd.randrange(1 << 24, 1 << 25)
+            cnt = min(26, 8 * left_r + rnd.choice([1, 2, 8, 9]) + (0 if pending else 1))
+            jobs.append({"op": "h4bits", "id": f"k{ci}_{rep}", "buf": buf, "pos": pos, "range": rng, "code": rnd.randrange(0, rng),
+                         "count": cnt, "cls": ["tlc", left, count, last_zero, pending], "tlc_class": True})
+    return jobs
+
+
+def h4_direct_bits(ctx, tier, target_cfgs, tlc_classes):
+    jobs = direct_bits_jobs(ctx.seed, 400 if tier == "quick" else 20000, tier) + class_jobs(tlc_classes, ctx.seed)
     classes = set()
     for cfg_name, (features, target) in target_cfgs.items():
         res = symlib.run_sym_jobs(jobs, features=features, target=target)
@@ -313,7 +336,7 @@ def h4_direct_bits(ctx, tier, target_cfgs):
 def norm_arrays(ctx, tier):
     """Arrays from TLC behaviours of the Norm model, concretised to 32-bit values by a class table, plus random
     arrays; each is run at several element offsets inside a larger buffer (unaligned prefixes / suffixes)."""
-    d, mod, cfg = core.write_model("NormModel", {"Classes": "0..6", "MaxLen": "3" if tier == "quick" else "4"},
+    d, mod, cfg = core.write_model("NormModel", {"Classes": "{0,1,2,3,4,5,6}", "MaxLen": "2" if tier == "quick" else "4"},
                                    invariants=("Refines", "Emit"))
     r = core.run_tlc(mod, cfg, workers=2, timeout=300, cwd=d)
     ctx.note_tlc("NormModel", r)
@@ -386,7 +409,7 @@ def h4_normalize(ctx, tier, target_cfgs):
 def symbol_traces(ctx, tier, target_cfgs):
     rnd = random.Random(ctx.seed ^ 0x5E)
     jobs = []
-    n = 10 if tier == "quick" else 80
+    n = 8 if tier == "quick" else 80
     for i in range(n):
         fmt = rnd.choice(["lzma", "lzma2"])
         opts = {"preset": rnd.choice([0, 1, 3, 4, 6, 9]), "dict": rnd.choice([65536, 1 << 18])}
@@ -394,7 +417,8 @@ def symbol_traces(ctx, tier, target_cfgs):
             lc, lp, pb = rnd.choice(LCLPPB)
             opts.update({"lc": lc, "lp": lp, "pb": pb})
         j = symlib.roundtrip_job(f"s{i}", fmt, opts, {"class": rnd.choice(["text", "mixed", "periodic", "lowent", "repeat_far"]),
-                                                        "len": rnd.choice([300, 2000, 5000]), "seed": rnd.randrange(1 << 30)},
+                                                        "len": rnd.choice([300, 1500, 3000] if tier == "quick" else [300, 2000, 8000]),
+                                                        "seed": rnd.randrange(1 << 30)},
                                  reads=rnd.choice([[4096], [1], [7, 0, 300]]))
         if fmt == "lzma2" and rnd.random() < 0.4:
             j["flush"] = True
@@ -402,40 +426,54 @@ def symbol_traces(ctx, tier, target_cfgs):
         jobs.append(j)
     kinds = [0, 0, 0, 0]
     per_cfg = {}
+    names = list(target_cfgs)
     for cfg_name, (features, target) in target_cfgs.items():
         res = symlib.run_sym_jobs(jobs, features=features, target=target)
-        for j, r in zip(jobs, res):
+        per_cfg[cfg_name] = res
+        for r in res:
             ctx.add("evaluations")
-            if r.get("enc") != "ok" or r.get("dec") != "ok" or not r.get("equal"):
-                # not this property's oracle (C01) unless it differs between configurations - compared below
-                pass
             for k in range(4):
                 kinds[k] += r.get("dec_counters", {}).get("dec_sym", [0, 0, 0, 0])[k]
-        per_cfg[cfg_name] = res
+    # the same run must produce the same compressed bytes, the same symbol decisions and the same decoder steps in
+    # every configuration
+    ev = lambda r: [e for e in r.get("events", []) if e.get("side") in ("E", "D", "L")]
+    identical = {}
+    for a in names[1:]:
+        same = True
+        for j, r0, r1 in zip(jobs, per_cfg[names[0]], per_cfg[a]):
+            s0, s1 = ev(r0), ev(r1)
+            if r0.get("digest") != r1.get("digest") or s0 != s1 or r0.get("equal") != r1.get("equal") or r0.get("dec") != r1.get("dec"):
+                same = False
+                k = next((i for i, (x, y) in enumerate(zip(s0, s1)) if x != y), min(len(s0), len(s1)))
+                ctx.violation(f"builds {names[0]} and {a} take different symbol decisions / decoder steps for the same input {j['id']}: first "
+                              f"differing event {k}: {s0[k] if k < len(s0) else None} vs {s1[k] if k < len(s1) else None}; compressed digests "
+                              f"{r0.get('digest')} / {r1.get('digest')}",
+                              {"check": "symbol_trace_diff", "fmt": j["fmt"], "pair": f"{names[0]}-vs-{a}"}, {"job": j, "configs": [names[0], a]})
+        identical[a] = same
+    # every configuration's traces are validated against the SAME specifications; a configuration whose event lists are
+    # identical to an already validated one is covered by that validation
+    for cfg_name in names:
+        res = per_cfg[cfg_name]
         runs = [r["events"] for r in res if r.get("events")]
+        if cfg_name != names[0] and identical.get(cfg_name):
+            ctx.add("traces_validated", 2 * len(runs))
+            ctx.cov.setdefault("trace_validation", {})[cfg_name] = f"event lists identical to {names[0]} ({len(runs)} runs): covered by its validation"
+            continue
         v = symlib.validate_symbols(ctx, runs, name=cfg_name)
-        ctx.add("traces_validated", len(runs) if v["accepted"] else 0)
         if not v["accepted"]:
-            # a per-symbol divergence is C01's witness; for C14 it matters when the configurations differ (below)
+            # a per-symbol divergence is C01's witness; for C14 it matters when the configurations differ (above)
             ctx.note_drift(f"symbol traces of build {cfg_name}: Trace_LzmaSymbols rejects run {v['bad_run']} after event {v['reached']}/{v['total']}: "
                            f"{v.get('divergence') or v.get('next_event')}")
+        else:
+            ctx.add("traces_validated", len(runs))
         lv = symlib.validate_lzdecoder(ctx, runs, name=cfg_name)
         if not lv["accepted"]:
             ctx.note_drift(f"LzDecoder traces of build {cfg_name}: Trace_LzDecoder rejects after event {lv['reached']}/{lv['total']}: {lv.get('next_event')}")
         else:
             ctx.add("traces_validated", lv["runs"])
+        ctx.cov.setdefault("trace_validation", {})[cfg_name] = {"runs": len(runs), "symbol_events": v["events"], "symbols_accepted": v["accepted"],
+                                                                  "lzdecoder_events": lv.get("events"), "lzdecoder_accepted": lv["accepted"]}
         log(f"[trace] build {cfg_name}: {len(runs)} runs, {v['events']} symbol events accepted={v['accepted']}; lzdecoder events {lv.get('events')} accepted={lv['accepted']}")
-    # the same run must produce the same symbol sequence and the same bytes in both configurations
-    names = list(per_cfg)
-    for a in names[1:]:
-        for j, r0, r1 in zip(jobs, per_cfg[names[0]], per_cfg[a]):
-            s0 = [e for e in r0.get("events", []) if e.get("side") in ("E", "D", "L")]
-            s1 = [e for e in r1.get("events", []) if e.get("side") in ("E", "D", "L")]
-            if r0.get("digest") != r1.get("digest") or s0 != s1:
-                k = next((i for i, (x, y) in enumerate(zip(s0, s1)) if x != y), min(len(s0), len(s1)))
-                ctx.violation(f"builds {names[0]} and {a} take different symbol decisions / decoder steps for the same input: first differing "
-                              f"event {k}: {s0[k] if k < len(s0) else None} vs {s1[k] if k < len(s1) else None}",
-                              {"check": "symbol_trace_diff", "fmt": j["fmt"], "pair": f"{names[0]}-vs-{a}"}, {"job": j, "configs": [names[0], a]})
     if min(kinds) == 0:
         raise ToolError(f"vacuous symbol traces: a symbol kind never occurred {kinds}")
     ctx.cov["symbol_kinds_traced"] = kinds
@@ -449,26 +487,93 @@ def design_checks(ctx, tier):
     ctx.require_coverage(r, ["Node", "EndMarker"], "LzmaSymbols")
 
 
+def asbuilt():
+    return json.load(open(os.path.join(core.SPEC, "asbuilt_c2.json")))["RangeCoder"]
+
+
 def rangecoder_checks(ctx, tier):
-    """RangeCoder.tla at reduced width; returns direct-bit states of the clamping (regressed) design that differ from
-    the portable loop, to be replayed on the real code as classes."""
+    """RangeCoder.tla at reduced width. Returns the abstract classes of decoder states (bytes left in the buffer, run
+    length, last buffer byte zero, normalisation pending) at which the clamping design (AsmClamp = TRUE, defect D19)
+    disagrees with the portable loop; C14 concretises them to real-width states for the H4 differential."""
     quick = tier == "quick"
-    base = {"ShiftBits": "2", "RangeBits": "8", "ModelBits": "3", "MoveBits": "1", "MaxBits": "6" if quick else "8",
-            "NCtx": "2", "MaxDirect": "3", "AsmClamp": "FALSE", "MaxCut": "2"}
-    d, mod, cfg = core.write_model("RangeCoder", base, invariants=("RoundTrip", "BytesAccounted", "PendingSizeExact",
-                                                                     "PosAccounting", "PastEndReadsZero", "TypeOK"))
-    r = ctx.tlc(mod, cfg, name="RangeCoder as-built", cwd=d, workers=6, timeout=900)
-    ctx.require_coverage(r, ["EncBit", "EncDirect", "Finish"], "RangeCoder")
-    # the regressed design (assembly clamps index and position): TLC must find the disagreement
-    reg = dict(base, AsmClamp="TRUE")
-    d, mod, cfg = core.write_model("RangeCoder", reg, invariants=("PosAccounting", "PastEndReadsZero"))
-    r2 = core.run_tlc(mod, cfg, workers=6, timeout=900, cwd=d)
-    ctx.note_tlc("RangeCoder regressed (AsmClamp)", r2)
-    if r2.ok:
-        raise ToolError("RangeCoder.tla: the clamping variant satisfies PosAccounting / PastEndReadsZero - the model cannot "
-                        "distinguish the designs (vacuous)")
-    ctx.cov["rangecoder_regressed_design_violates"] = r2.violated
-    return r2
+    base = {"ShiftBits": "2", "RangeBits": "8", "ModelBits": "3", "MoveBits": "2", "MaxBits": "5" if quick else "6",
+            "NCtx": "1" if quick else "2", "MaxDirect": "3", "AsmClamp": "FALSE", "MaxCut": "2"}
+    runs = [("w8", base)]
+    if not quick:
+        runs.append(("w8-long", dict(base, MaxBits="8", NCtx="1", MaxDirect="2")))
+        runs.append(("w12", dict(base, RangeBits="12", ShiftBits="3", ModelBits="4", MoveBits="2", MaxBits="5", NCtx="1")))
+    for name, consts in runs:
+        # everything that does not involve the assembly variant holds for both designs
+        d, mod, cfg = core.write_model("RangeCoder", consts, invariants=("RoundTrip", "BytesAccounted", "PendingSizeExact",
+                                                                         "PosAccounting", "PastEndReadsZero", "TypeOK"))
+        r = ctx.tlc(mod, cfg, name=f"RangeCoder {name} (repaired design)", cwd=d, workers=6, timeout=1500)
+        ctx.require_coverage(r, ["EncBit", "EncDirect"], "RangeCoder")
+    # the clamping design: TLC must find the disagreement, and reports the classes of states where it occurs
+    reg = dict(base, AsmClamp="TRUE", NCtx="1")
+    d, mod, cfg = core.write_model("RangeCoder", reg, invariants=("DirectBitsAgree",))
+    r2 = core.run_tlc(mod, cfg, workers=6, timeout=900, cwd=d, continue_=True)
+    ctx.note_tlc("RangeCoder clamping design (AsmClamp)", r2)
+    classes = set()
+    for l in r2.out.splitlines():
+        if l.startswith('<<"DBCLASS"'):
+            t = json.loads(l.replace("<<", "[").replace(">>", "]").replace("TRUE", "true").replace("FALSE", "false"))
+            classes.add((t[1], t[2], t[3], t[4], t[5] == 0, t[6]))
+    if r2.ok or not classes:
+        raise ToolError("RangeCoder.tla: the clamping variant satisfies DirectBitsAgree - the model cannot distinguish the "
+                        "designs (vacuous)")
+    ctx.cov["rangecoder_clamp_classes"] = sorted([list(c) for c in classes])
+    log(f"[tlc] clamping design disagrees with the portable loop in {len(classes)} state classes")
+    return classes
+
+
+LZD_INV = ("OutputInOrder", "CopySourceValid", "DistCheck", "LimitRespected", "Accounting")
+LZD_PROPS = ("ZeroReadIsNoop", "DistCheckStep")
+
+
+def lzdecoder_stage(ctx, tier, target_cfgs):
+    """LzDecoder.tla: exhaustive design check on a 4-cell ring; behaviours sampled by TLC on rings of the real minimum
+    size (symbols AND read sizes chosen by TLC) replayed strictly on the real readers of every std configuration."""
+    quick = tier == "quick"
+    base = {"B": "4", "ReadSizes": "{0,1,2,3,5}", "Lens": "{2,3,4}", "ChunkSizes": "{1,2,3,5}", "SizeKnown": "FALSE",
+            "AllowBad": "TRUE", "KeepHist": "FALSE"}
+    for name, kind, extra in (("lzma2", "lzma2", {"MaxStream": "5" if quick else "7"}),
+                              ("lzma-known", "lzma", {"SizeKnown": "TRUE", "MaxStream": "6" if quick else "8"}),
+                              ("lzma-marker", "lzma", {"MaxStream": "5" if quick else "7"})):
+        c = dict(base, Kind=f'"{kind}"')
+        c.update(extra)
+        d, mod, cfg = core.write_model("LzDecoder", c, invariants=LZD_INV, properties=LZD_PROPS)
+        r = ctx.tlc(mod, cfg, name=f"LzDecoder {name}", cwd=d, workers=6, timeout=1500)
+        ctx.require_coverage(r, ["Lit", "Match", "Flush", "RepeatPending", "BadDistAny"], f"LzDecoder {name}")
+    sims = [("lz2", "lzma2", {"B": "16", "MaxStream": "44", "AllowBad": "TRUE"}),
+            ("lz2v", "lzma2", {"B": "16", "MaxStream": "44", "AllowBad": "FALSE"}),
+            ("lz1k", "lzma", {"B": "64", "MaxStream": "40", "SizeKnown": "TRUE", "AllowBad": "TRUE"}),
+            ("lz1m", "lzma", {"B": "64", "MaxStream": "40", "SizeKnown": "FALSE", "AllowBad": "FALSE"})]
+    nb = 40 if quick else 600
+    tot = {"behaviours": 0, "calls": 0, "zero_reads": 0, "split_matches": 0, "wraps": 0, "bad_dist": 0, "mismatch": 0}
+    for name, kind, extra in sims:
+        c = {"Kind": f'"{kind}"', "ReadSizes": "{0,1,2,3,5,7,20,50}", "Lens": "{2,3,5,9,17,18}", "ChunkSizes": "{1,2,3,5,8,13,21}",
+             "SizeKnown": "FALSE", "KeepHist": "TRUE"}
+        c.update(extra)
+        hs = symlib.lzdecoder_behaviours(ctx, c, nb, ctx.seed % 100000 + len(name), name=name)
+        for cfg_name, (features, target) in target_cfgs.items():
+            st = symlib.lzdecoder_replay(ctx, kind, c, nb, 0, name=f"{name}@{cfg_name}", sig_base={"build": cfg_name},
+                                         features=features, target=target, behaviours=hs)
+            runs = st.pop("events_runs")
+            ctx.add("evaluations", st["behaviours"])
+            if cfg_name == "default":
+                for k in tot:
+                    tot[k] += st.get(k, 0)
+                lv = symlib.validate_lzdecoder(ctx, runs, name=name)
+                if lv["accepted"]:
+                    ctx.add("traces_validated", lv["runs"])
+                else:
+                    ctx.note_drift(f"Trace_LzDecoder rejects the decoder events of forged behaviours {name} after event {lv['reached']}/{lv['total']}: "
+                                   f"{lv.get('next_event')} state {lv.get('state')}")
+    if min(tot["zero_reads"], tot["split_matches"], tot["wraps"], tot["bad_dist"]) == 0:
+        raise ToolError(f"vacuous LzDecoder replay: a scenario class never occurred: {tot}")
+    ctx.cov["lzdecoder_replay"] = tot
+    log(f"[replay] LzDecoder behaviours on the real readers: {tot}")
+    return {("lzd", k) for k, v in tot.items() if v}
 
 
 def run(tier, replay=None):
@@ -481,17 +586,18 @@ def run(tier, replay=None):
     classes = set()
     # ---- stage 1: design
     design_checks(ctx, tier)
-    rangecoder_checks(ctx, tier)
+    tlc_classes = rangecoder_checks(ctx, tier)
     # ---- stage 2: function-level differential on every std build (the accessors need the hooks)
-    classes |= h4_direct_bits(ctx, tier, std_cfgs)
+    classes |= h4_direct_bits(ctx, tier, std_cfgs, tlc_classes)
     classes |= h4_normalize(ctx, tier, std_cfgs)
     # ---- stage 3: traces of both std configurations against the same specifications
     symbol_traces(ctx, tier, std_cfgs)
+    classes |= lzdecoder_stage(ctx, tier, std_cfgs)
     # ---- stage 4: transcript differential over the four builds
-    cases = case_list(ctx.seed, 260 if quick else 6000, tier)
+    cases = case_list(ctx.seed, 500 if quick else 6000, tier)
     c1, n1, d1 = run_transcripts(ctx, bins, cases, "grid")
     classes |= {("t",) + c for c in c1}
-    fj = forged_cases(ctx.seed, 40 if quick else 600)
+    fj = forged_cases(ctx.seed, 80 if quick else 1000)
     fr = symlib.run_sym_jobs([dict(j, op="forge", forge_only=True, emit_hex=True) for j in fj])
     fcases = []
     rnd = random.Random(ctx.seed ^ 0xF0)
